@@ -307,6 +307,69 @@ impl VisitMut for Passes {
     }
 }
 
+// ---- R-HOISTARGS: at configured call sites the (side-effect free) argument expressions are bound to locals first, so
+// that contract text can name them:  f(a, b)  ==>  let v_hK_0 = a; let v_hK_1 = b; f(v_hK_0, v_hK_1)
+struct FindCall<'a> { method: &'a str, found: Option<Vec<Expr>>, site: usize, impure: bool }
+impl<'a> VisitMut for FindCall<'a> {
+    fn visit_expr_mut(&mut self, e: &mut Expr) {
+        if self.found.is_some() { return; }
+        match e {
+            Expr::Closure(_) | Expr::ForLoop(_) | Expr::While(_) | Expr::Loop(_) | Expr::Block(_) => { return; }
+            _ => {}
+        }
+        let is_target = match e {
+            Expr::MethodCall(m) => m.method == self.method,
+            Expr::Call(c) => matches!(&*c.func, Expr::Path(p) if p.path.segments.last().map(|s| s.ident == self.method).unwrap_or(false)),
+            _ => false,
+        };
+        if is_target {
+            let args: &mut syn::punctuated::Punctuated<Expr, Token![,]> = match e { Expr::MethodCall(m) => &mut m.args, Expr::Call(c) => &mut c.args, _ => unreachable!() };
+            let mut olds = vec![];
+            for (k, a) in args.iter_mut().enumerate() {
+                let txt = norm(a);
+                if txt.contains('?') || txt.contains("return") || txt.contains("=") && !txt.contains("==") { self.impure = true; }
+                let id = Ident::new(&format!("v_h{}_{}", self.site, k), proc_macro2::Span::call_site());
+                olds.push(a.clone());
+                *a = parse_quote!( #id );
+            }
+            self.found = Some(olds);
+            return;
+        }
+        visit_mut::visit_expr_mut(self, e);
+    }
+}
+struct Hoister<'a> { method: &'a str, site: usize, log: Vec<String>, errors: Vec<String> }
+impl<'a> VisitMut for Hoister<'a> {
+    fn visit_block_mut(&mut self, b: &mut Block) {
+        let stmts = std::mem::take(&mut b.stmts);
+        let mut out = vec![];
+        for mut st in stmts {
+            let compound_loop = matches!(&st, Stmt::Expr(Expr::ForLoop(_) | Expr::While(_) | Expr::Loop(_) | Expr::Block(_) | Expr::Match(_), _));
+            if !compound_loop {
+                let mut fc = FindCall { method: self.method, found: None, site: self.site, impure: false };
+                match &mut st {
+                    Stmt::Expr(Expr::If(ife), _) => { fc.visit_expr_mut(&mut ife.cond); }
+                    Stmt::Expr(e, _) => { fc.visit_expr_mut(e); }
+                    Stmt::Local(l) => { if let Some(init) = &mut l.init { fc.visit_expr_mut(&mut init.expr); } }
+                    _ => {}
+                }
+                if let Some(olds) = fc.found {
+                    if fc.impure { self.errors.push(format!("UNSUPPORTED hoist site {}: argument with side effect", self.site)); }
+                    for (k, a) in olds.into_iter().enumerate() {
+                        let id = Ident::new(&format!("v_h{}_{}", self.site, k), proc_macro2::Span::call_site());
+                        out.push(parse_quote!( let #id = #a; ));
+                    }
+                    self.log.push(format!("R-HOISTARGS site {} call {}", self.site, self.method));
+                    self.site += 1;
+                }
+            }
+            out.push(st);
+        }
+        b.stmts = out;
+        visit_mut::visit_block_mut(self, b);
+    }
+    fn visit_expr_closure_mut(&mut self, _: &mut ExprClosure) {}
+}
 struct OpaqueVisitor { prefix: String, repl: String, hit: Option<String> }
 impl VisitMut for OpaqueVisitor {
     fn visit_local_mut(&mut self, l: &mut Local) {
@@ -423,6 +486,44 @@ struct Annot {
     anchors: Vec<(bool, String, String, bool)>, /* (after?, substr, marker, matched) */
     headers: Vec<(usize, String, String, usize)>, /* (k, kind+header text, hash, src line) */
 }
+impl Annot {
+    fn annotate_loop(&mut self, e: &mut Expr) -> (Ident, TokenStream, Ident) {
+        self.counter += 1;
+        let k = self.counter;
+        let (hdr, hline) = match e {
+            Expr::ForLoop(fl) => (format!("for {} in {}", norm(&fl.pat), norm(&fl.expr)), line_of(&fl.for_token)),
+            Expr::While(w) => (format!("while {}", norm(&w.cond)), line_of(&w.while_token)),
+            Expr::Loop(l) => ("loop".to_string(), line_of(&l.loop_token)),
+            _ => unreachable!(),
+        };
+        self.headers.push((k, hdr.clone(), fnv(&hdr), hline));
+        visit_mut::visit_expr_mut(self, e);
+        let f = &self.fkey;
+        let it = Ident::new(&format!("it{}", k), proc_macro2::Span::call_site());
+        let inv = Ident::new(&format!("__vx_inv_{}_{}", f, k), proc_macro2::Span::call_site());
+        let bs = Ident::new(&format!("__vx_bs_{}_{}", f, k), proc_macro2::Span::call_site());
+        let be = Ident::new(&format!("__vx_be_{}_{}", f, k), proc_macro2::Span::call_site());
+        let pre = Ident::new(&format!("__vx_pre_{}_{}", f, k), proc_macro2::Span::call_site());
+        let post = Ident::new(&format!("__vx_post_{}_{}", f, k), proc_macro2::Span::call_site());
+        let lattr = Ident::new(&format!("__vx_lattr_{}_{}", f, k), proc_macro2::Span::call_site());
+        let ts = match e {
+            Expr::ForLoop(fl) => {
+                let (pat, expr, label, stmts) = (&fl.pat, &fl.expr, &fl.label, &fl.body.stmts);
+                quote!( #lattr #label for #pat in #it : #expr #inv { #bs; #(#stmts)* #be; } )
+            }
+            Expr::While(w) => {
+                let (cond, label, stmts) = (&w.cond, &w.label, &w.body.stmts);
+                quote!( #lattr #label while #cond #inv { #bs; #(#stmts)* #be; } )
+            }
+            Expr::Loop(l) => {
+                let (stmts, label) = (&l.body.stmts, &l.label);
+                quote!( #lattr #label loop #inv { #bs; #(#stmts)* #be; } )
+            }
+            _ => unreachable!(),
+        };
+        (pre, ts, post)
+    }
+}
 impl VisitMut for Annot {
     fn visit_block_mut(&mut self, b: &mut Block) {
         if !self.anchors.is_empty() {
@@ -446,7 +547,23 @@ impl VisitMut for Annot {
             }
             b.stmts = out;
         }
-        visit_mut::visit_block_mut(self, b);
+        // loops in statement position: the pre / post annotation points are siblings of the loop (ghost variables declared
+        // in #pre stay in scope for the rest of the enclosing block)
+        let stmts = std::mem::take(&mut b.stmts);
+        let mut out: Vec<Stmt> = vec![];
+        for st in stmts {
+            match st {
+                Stmt::Expr(mut e, semi) if matches!(e, Expr::ForLoop(_) | Expr::While(_) | Expr::Loop(_)) => {
+                    let (pre, body, post) = self.annotate_loop(&mut e);
+                    out.push(Stmt::Expr(Expr::Verbatim(quote!( #pre ; )), None));
+                    out.push(Stmt::Expr(Expr::Verbatim(quote!( #body )), None));
+                    out.push(Stmt::Expr(Expr::Verbatim(quote!( #post ; )), None));
+                    let _ = semi;
+                }
+                mut other => { self.visit_stmt_mut(&mut other); out.push(other); }
+            }
+        }
+        b.stmts = out;
     }
     fn visit_expr_mut(&mut self, e: &mut Expr) {
         if let Expr::Closure(_) = e {
@@ -467,39 +584,8 @@ impl VisitMut for Annot {
         }
         let is_loop = matches!(e, Expr::ForLoop(_) | Expr::While(_) | Expr::Loop(_));
         if !is_loop { visit_mut::visit_expr_mut(self, e); return; }
-        self.counter += 1;
-        let k = self.counter;
-        let (hdr, hline) = match e {
-            Expr::ForLoop(fl) => (format!("for {} in {}", norm(&fl.pat), norm(&fl.expr)), line_of(&fl.for_token)),
-            Expr::While(w) => (format!("while {}", norm(&w.cond)), line_of(&w.while_token)),
-            Expr::Loop(l) => ("loop".to_string(), line_of(&l.loop_token)),
-            _ => unreachable!(),
-        };
-        self.headers.push((k, hdr.clone(), fnv(&hdr), hline));
-        visit_mut::visit_expr_mut(self, e);
-        let f = &self.fkey;
-        let it = Ident::new(&format!("it{}", k), proc_macro2::Span::call_site());
-        let inv = Ident::new(&format!("__vx_inv_{}_{}", f, k), proc_macro2::Span::call_site());
-        let bs = Ident::new(&format!("__vx_bs_{}_{}", f, k), proc_macro2::Span::call_site());
-        let be = Ident::new(&format!("__vx_be_{}_{}", f, k), proc_macro2::Span::call_site());
-        let pre = Ident::new(&format!("__vx_pre_{}_{}", f, k), proc_macro2::Span::call_site());
-        let post = Ident::new(&format!("__vx_post_{}_{}", f, k), proc_macro2::Span::call_site());
-        let lattr = Ident::new(&format!("__vx_lattr_{}_{}", f, k), proc_macro2::Span::call_site());
-        let ts = match e {
-            Expr::ForLoop(fl) => {
-                let (pat, expr, label, stmts) = (&fl.pat, &fl.expr, &fl.label, &fl.body.stmts);
-                quote!( { #pre; #lattr #label for #pat in #it : #expr #inv { #bs; #(#stmts)* #be; } #post; } )
-            }
-            Expr::While(w) => {
-                let (cond, label, stmts) = (&w.cond, &w.label, &w.body.stmts);
-                quote!( { #pre; #lattr #label while #cond #inv { #bs; #(#stmts)* #be; } #post; } )
-            }
-            Expr::Loop(l) => {
-                let (stmts, label) = (&l.body.stmts, &l.label);
-                quote!( { #pre; #lattr #label loop #inv { #bs; #(#stmts)* #be; } #post; } )
-            }
-            _ => unreachable!(),
-        };
+        let (pre, body, post) = self.annotate_loop(e);
+        let ts = quote!( { #pre; #body #post; } );
         *e = Expr::Verbatim(ts);
     }
 }
@@ -741,6 +827,7 @@ struct Opts {
     key_suffix: String,
     opaque: Vec<(String, String, String)>,
     fn_mono: Vec<(String, String, String)>,
+    hoist: Vec<(String, String)>,
     log: Option<String>,
     names: Vec<String>,
     mono: bool,
@@ -750,7 +837,7 @@ struct Opts {
 fn parse_args() -> Opts {
     let args: Vec<String> = std::env::args().collect();
     let mut o = Opts { src: String::new(), opdesugar: false, mapcollect: false, extendmap: true, tryinto: true, renames: vec![], contracts: vec![], stubs: vec![],
-        items: vec![], impl_filter: None, key_suffix: String::new(), opaque: vec![], fn_mono: vec![], log: None, names: vec![], mono: true, label: String::new() };
+        items: vec![], impl_filter: None, key_suffix: String::new(), opaque: vec![], fn_mono: vec![], hoist: vec![], log: None, names: vec![], mono: true, label: String::new() };
     let mut i = 1;
     let split = |s: &String| -> Vec<String> { s.split(',').filter(|x| !x.is_empty()).map(|x| x.to_string()).collect() };
     while i < args.len() {
@@ -771,6 +858,7 @@ fn parse_args() -> Opts {
             "--label" => { i += 1; o.label = args[i].clone(); }
             "--opaque" => { i += 1; let p: Vec<&str> = args[i].splitn(3, "=>").collect(); if p.len() != 3 { eprintln!("VX-ERROR --opaque fn=>prefix=>replacement"); std::process::exit(4); } o.opaque.push((p[0].to_string(), p[1].to_string(), p[2].to_string())); }
             "--fn-mono" => { i += 1; let p: Vec<&str> = args[i].splitn(2, ':').collect(); let q: Vec<&str> = p[1].splitn(2, '=').collect(); o.fn_mono.push((p[0].to_string(), q[0].to_string(), q[1].to_string())); }
+            "--hoist" => { i += 1; let p: Vec<&str> = args[i].splitn(2, ':').collect(); o.hoist.push((p[0].to_string(), p[1].to_string())); }
             "--log" => { i += 1; o.log = Some(args[i].clone()); }
             s if s.starts_with("--") => { eprintln!("VX-ERROR unknown option {}", s); std::process::exit(4); }
             _ => { if o.src.is_empty() { o.src = a.clone(); } else { o.names.push(a.clone()); } }
@@ -919,6 +1007,13 @@ fn process_fn(cx: &mut Ctx, vis: &Visibility, sig: &Signature, block: &Block, in
         let mut b2 = block.clone();
         cx.p.visit_block_mut(&mut b2);
         block = b2;
+    }
+    for (f, method) in cx.o.hoist.iter() {
+        if *f != name { continue; }
+        let mut h = Hoister { method: method.as_str(), site: 0, log: vec![], errors: vec![] };
+        h.visit_block_mut(&mut block);
+        cx.p.log.extend(h.log);
+        cx.errors.extend(h.errors);
     }
     // R-OPAQUE sites (after the passes, so attributes are already stripped)
     for (f, prefix, repl) in cx.o.opaque.iter() {
